@@ -234,6 +234,9 @@ func intervalFromFact(f Fact, isX vpred) (lo, hi int64, hasLo, hasHi bool) {
 func checkC03(c *Ctx, r *Report) {
 	r.Explanation = c03Explanation
 	r.Trusted = []string{"go/ssa translation", "RFC 1035 s.2.3.4 limits (63, 255)"}
+	dddReadersAgree(c, r, "C03.R3.ddd-readers-agree", "a name that holds a \\DDD above 255 behind an octet the printer has to escape prints as text that packs to other octets than the name itself")
+	appendOriginWhole(c, r, "C03.R4.append-origin-whole")
+	borrow(c, r, func(c *Ctx, r *Report) { generateEscapesKept(c, r, "C06.R4.generate-escapes-kept") }, "C06.R4.generate-escapes-kept", "C03.R3.generate-escapes-kept", 1, "the $GENERATE template reader hands an escaped backslash to the zone lexer as two octets", nil, "a name written `x\\\\.$` in a template loses its escape: the label separator behind it is swallowed and the generated owner has other labels than the text says")
 	r.rule("C03.R1.total-limit", 3, "the largest accepted sum of (label length + 1) is 254 in UnpackDomainName, IsDomainName and packDomainName")
 	r.rule("C03.R1.label-limit", 3, "the largest accepted label length is 63 in all three")
 	for _, spec := range []struct{ name, kind string }{{"UnpackDomainName", "wire"}, {"IsDomainName", "text"}, {"packDomainName", "text"}} {
